@@ -358,6 +358,19 @@ def filter_case(case):
         if rmap: count('runs-with-renamed-refs')
         after_refs = refs(repo)
         guards = model().ask(f'guards {opts} {enhex(s_before)}')
+        # C03: the old names that are gone are exactly those on the model's deletion list (Finalize.deletedOldNames, fed the
+        # ref-map pairs and the names that existed before the run); names are compared as bytes, so only ASCII-named repositories
+        if rmap and guards == 'ok' and not separate and all(isinstance(n, str) and n.isascii() for n in list(before_refs) + list(after_refs)):
+            pairs = [tuple(l.split(b' ', 1)) for l in rmap.splitlines() if b' ' in l]
+            if pairs and all(a.isascii() and b.isascii() for a, b in pairs):
+                want = model().ask('deletedold ' + ','.join(enhex(a) + ':' + enhex(b) for a, b in pairs) + ' ' + (','.join(enhex(n.encode()) for n in before_refs) or '-'))
+                want_set = set() if want == '-' else {unhex(x).decode() for x in want.split(',')}
+                gone = {a.decode() for a, _ in pairs if a.decode() in before_refs and a.decode() not in after_refs}
+                if want.startswith('error') or want == 'bad-op':
+                    res['failures'].append(('ALL', f'model driver rejected the deletedold request: {want}'))
+                elif gone != want_set:
+                    res['failures'].append(('C03', f'old ref names gone after the run {sorted(gone)} differ from the deletion list of the model {sorted(want_set)} (ref-map {rmap!r})'))
+                count('old-name-deletion-compared-with-the-model')
         # C09: every non-zero id in commit-map is an existing commit
         for l in (cmap.splitlines() if guards == 'ok' else []):
             old, new = l.split(b' ')
